@@ -40,7 +40,7 @@ CLAIMED = {
           "the model is hand written: its tie to conn.go is the conv correspondence; goroutine timing of chunked deliveries is covered by C04/C20"),
  "C04": C("Strict RFC 5321 reply recogniser + enhanced-code class rule + own-verdict rule (DATA and chunked) evaluated on every recorded "
           "conversation incl. forced delivery orders (sched probe); L3 theorem own_verdict_all_schedules proved for every schedule of the "
-          "chunked-delivery model; C04_reply_syntax: every one-line reply the model's renderer writes (any code, enhanced code, text) is accepted by the strict "
+          "chunked-delivery model; C04_reply_syntax / C04_reply_syntax_multiline: every reply, one line or many, that the model's renderer writes (any code, enhanced code, text) is accepted by the strict "
           "recogniser as exactly one reply with that code, and the enhanced code it reads off the line is the rendered one (class.0.0 of the reply's class when unset).",
           "DESIGN.md 7 C04", "Lean 4 proof of the L3 interleaving model and of the renderer against the recogniser + trace monitors + differential correspondence (conv, sched probes)",
           "reply count/order per command is tied by the correspondence with the model, not yet by a theorem; echoed client octets in reply text are a design-phase finding not yet judged"),
